@@ -277,7 +277,13 @@ func Drive(e Engine, o DriverOpts) int {
 				addViolation(Violation{Prop: prop, Key: "hang:" + fr, Msg: "case exceeded its CPU-time budget (no return): " + phase + " " + safeIdx(lines, 2),
 					Tier: tier, Seed: seed, Index: cur, Detail: mustJSON(map[string]any{"phase": phase, "goroutines": clip(dump, 6000)})})
 			} else if cur >= 0 {
-				key, what := crashKey(stderrTail, exit)
+				// the key names the library frame that was running: in a deep recursion that frame
+				// stands far down the crash report, so the whole report (up to 8 MiB) is searched
+				keySrc := stderrTail
+				if fb, err := os.ReadFile(base + ".stderr"); err == nil && len(fb) < 8<<20 {
+					keySrc = string(fb)
+				}
+				key, what := crashKey(keySrc, exit)
 				addViolation(Violation{Prop: prop, Key: key, Msg: "worker process died during case: " + what,
 					Tier: tier, Seed: seed, Index: cur, Detail: mustJSON(map[string]any{"exit": exit, "stderr_tail": clip(stderrTail, 6000)})})
 			} else {
@@ -446,6 +452,13 @@ func tailFile(path string, n int64) string {
 	}
 	b := make([]byte, sz)
 	_, _ = f.ReadAt(b, 0)
+	if st.Size() > n {
+		// a deep recursion prints its innermost frames first and, after "frames elided", the
+		// outermost ones: the frame of the library that started it is near the end of the dump
+		t := make([]byte, n)
+		_, _ = f.ReadAt(t, st.Size()-n)
+		return string(b) + "\n...\n" + string(t)
+	}
 	return string(b)
 }
 
